@@ -263,6 +263,17 @@ pub struct World {
 
 pub const NETWORK: Network = Network::Regtest;
 
+/// A policy filter an operator could write when a lenient base configuration is merged under a
+/// strict one: an error rule for everything placed AHEAD of the permissive rule.  The first
+/// matching rule decides, so nothing is downgraded - the signer must behave exactly as under the
+/// default (empty) filter.
+pub fn shadowed_permissive_filter() -> lightning_signer::policy::filter::PolicyFilter {
+    use lightning_signer::policy::filter::{FilterResult, FilterRule, PolicyFilter};
+    let mut f = PolicyFilter { rules: vec![FilterRule { tag: "policy-".to_string(), is_prefix: true, action: FilterResult::Error }] };
+    f.merge(PolicyFilter::new_permissive());
+    f
+}
+
 impl World {
     pub fn new(policy: SimplePolicy, seed: [u8; 32], style: KeyDerivationStyle) -> World {
         World::new_on(NETWORK, policy, seed, style)
